@@ -38,6 +38,8 @@ def obligations():
                  "|q|^2 of adjugate row i equals prod_{j != i} (K_jj - lambda)^2 at lambda = K_ii: with a simple largest eigenvalue some row is usable (180-degree rotations included) and the identity branch is not taken", 300, params={"repeated": False}))
     o.append(Obl("C06.degenerate_eigenvalue", "py", H, "degenerate_branch", ["theobald_rmsd.cpp:msdFromMandG (identity branch)"], "M = diag(-1,-1,-1): repeated largest eigenvalue (point inversion)",
                  "the identity rotation is returned only when it is optimal", 300, params={"repeated": True}))
+    o.append(Obl("C06.row_selection", "py", H, "row_selection", ["theobald_rmsd.cpp:msdFromMandG (choice among adjugate rows, cutoffs)", "cofactor4"], "symbolic M (9), G_a, G_b, lambda; every path",
+                 "row 0 only above a relative cutoff, otherwise the row of largest norm; identity only when every row is relatively small (rounding noise is never normalised into a rotation)", 300))
     for d_ in ("rot40", "rot180"):
         o.append(Obl(f"C06.small_scale.{d_}", "py", H, "small_scale", ["theobald_rmsd.cpp:msdFromMandG (cutoff on |q|^2)"], "M = s D for a perfectly superposable isotropic pair (" + d_ + "), G_a = G_b = lambda = s, every s in [1e-4, 1] nm^2",
                      "the identity branch is infeasible: small structures (a water has s ~ 0.01) get their rotation", 300, params={"direction": d_}))
